@@ -523,8 +523,106 @@ def sessions(ck, n):
                            {'kind': 'plan-vs-exec'})
 
 
+# ------------------------------------------------------------------ translation tie of the run filters
+GEN_FILTER_MODULE = 'RB.Proofs.GenC01'
+DS_POOL = ['e:E0', 'e:E1', 's:S0', 's:*', 's:S0:B0', 's:*:B1', 's:S1:B0', 't:tagA', 't:5']
+DS_BENCHES = [('E0', 'S0', 'B0'), ('E0', 'S0', 'B1'), ('E1', 'S0', 'B0'), ('E1', 'S1', 'B1'), ('E2', 'S1', 'B0'),
+              ('E0', '*', 'B0')]
+DS_TAGS = [None, 'tagA', 'tagB', '5', 5]
+
+
+def filter_spec(text):
+    parts = text.split(':')
+    if parts[0] == 'e':
+        return {'text': text, 'kind': 'exec', 'a': parts[1]}
+    if parts[0] == 't':
+        return {'text': text, 'kind': 'tag', 'a': parts[1]}
+    if len(parts) == 2:
+        return {'text': text, 'kind': 'suite', 'a': parts[1]}
+    return {'text': text, 'kind': 'bench', 'a': parts[1], 'b': parts[2]}
+
+
+def documented_bench(filters, e, s_, n):
+    """the property: or within the executor group and within the suite group, and across groups"""
+    ef = [f.split(':')[1] for f in filters if f.startswith('e:')]
+    sf = [f.split(':')[1:] for f in filters if f.startswith('s:')]
+    return (not ef or e in ef) and \
+        (not sf or any((f[0] == '*' or f[0] == s_) and (len(f) == 1 or f[1] == n) for f in sf))
+
+
+def documented_tag(filters, tag):
+    tf = [f.split(':')[1] for f in filters if f.startswith('t:')]
+    return not tf or any(tag == f for f in tf)
+
+
+def real_filter(filters, bench=None, tag='<none given>'):
+    from types import SimpleNamespace as NS
+    from rebench.configurator import _RunFilter
+    try:
+        rf = _RunFilter(list(filters))
+        if bench is not None:
+            e, s_, n = bench
+            return bool(rf.applies_to_bench(NS(name=n, suite=NS(name=s_, executor=NS(name=e)))))
+        return bool(rf.applies_to_tag(tag))
+    except Exception as exc:  # noqa
+        return 'raised %s' % type(exc).__name__
+
+
+def directed_search_filters(ck):
+    """the translation tie of the run filters (RB.Proofs.GenC01) is not available for the current source.
+    proof-broken: the definitions generated from the current source and the filter model are run side by side
+    in Lean on every subset of a small filter pool x a few benchmarks / tags; every input on which they differ is
+    put to the real `_RunFilter` and to the property.  untranslatable: the same grid goes to the real code directly."""
+    entry = [e for e in getattr(ck, 'gen_entries', []) if e['module'] == GEN_FILTER_MODULE and e['status'] != 'ok']
+    if not entry:
+        return False
+    status = entry[0]['status']
+    subsets = [[f for k, f in enumerate(DS_POOL) if m >> k & 1] for m in range(2 ** len(DS_POOL))]
+    subsets = [fs for fs in subsets if len(fs) <= 4]
+    grid = [(fs, ('bench', b)) for fs in subsets for b in DS_BENCHES] + \
+           [(fs, ('tag', t)) for fs in subsets for t in DS_TAGS]
+    cands = grid
+    if status.startswith('proof-broken'):
+        ops = []
+        for fs, (kind, x) in grid:
+            base = {'filters': [filter_spec(f) for f in fs]}
+            if kind == 'bench':
+                ops.append(dict(base, op='c01.gen_bench', e=x[0], s=x[1], n=x[2]))
+            else:
+                ops.append(dict(base, op='c01.gen_tag', tag=x))
+        try:
+            answers = ck.model(ops, driver='drivers/C01gen.lean')
+            cands = [g for g, a in zip(grid, answers) if not a.get('same', True)]
+            ck.notes.append('directed search (run filters): generated vs model differ on %d of %d (filter set, '
+                            'benchmark / tag) pairs' % (len(cands), len(grid)))
+        except lib.InfraError as e:
+            ck.notes.append('directed search (run filters): generated definitions do not run (%s); the whole grid '
+                            'goes to the real code' % str(e)[:200])
+    else:
+        ck.notes.append('directed search (run filters): source not translatable; %d (filter set, benchmark / tag) '
+                        'pairs go to the real _RunFilter' % len(grid))
+    ck.count('directed-search-candidates', len(cands))
+    hits = 0
+    for fs, (kind, x) in cands:
+        ck.case(nontrivial_key=('directed-filter', tuple(fs), kind, str(x)))
+        if kind == 'bench':
+            got, want = real_filter(fs, bench=x), documented_bench(fs, *x)
+            inp = {'directed': 'run-filter', 'filters': fs, 'bench': {'executor': x[0], 'suite': x[1], 'benchmark': x[2]}}
+        else:
+            got, want = real_filter(fs, tag=x), documented_tag(fs, x)
+            inp = {'directed': 'run-filter', 'filters': fs, 'tag': x}
+        if got != want:
+            hits += 1
+            if hits <= 50:
+                ck.oracle_fail('filter_keeps_exactly_the_documented_runs', inp, {'reported': got, 'expected': want},
+                               {'kind': 'run-filter', 'what': kind})
+    return bool(cands)
+
+
 def run(ck):
     quick = ck.tier == 'quick'
+    if ck.gen_broken:
+        directed_search_filters(ck)
     ck.rule = ('schema-valid configurations from the documented grammar (1-3 experiments incl. deliberate copies, '
                'executions as names or maps with own suites/settings incl. the same executor listed several times, 1-3 suites, benchmarks as names or maps, variable '
                'lists at every level incl. digit strings and empty strings, 0-2 machines) x experiment selection x '
@@ -549,4 +647,15 @@ def run(ck):
 
 def replay(ck, data):
     inp = data['input']
+    if inp.get('directed') == 'run-filter':
+        if 'bench' in inp:
+            b = (inp['bench']['executor'], inp['bench']['suite'], inp['bench']['benchmark'])
+            got, want = real_filter(inp['filters'], bench=b), documented_bench(inp['filters'], *b)
+        else:
+            got, want = real_filter(inp['filters'], tag=inp['tag']), documented_tag(inp['filters'], inp['tag'])
+        ck.case(nontrivial_key=('directed-filter', json.dumps(inp, sort_keys=True)))
+        if got != want:
+            ck.oracle_fail('filter_keeps_exactly_the_documented_runs', inp, {'reported': got, 'expected': want},
+                           {'kind': 'run-filter', 'what': 'bench' if 'bench' in inp else 'tag'})
+        return
     check_cases(ck, [(inp['config'], inp['selection'])])
